@@ -36,14 +36,14 @@ def _is_discriminating_test(test: ast.AST, func: FuncInfo, disc: set[str]) -> bo
 
 CHAINS = [
     # qualname, discriminator names (params/locals/attributes whose value selects the alternative), min alternatives
-    ("emu_base.pulser_adapter.PulserData.__init__", {"int_type", "self.hamiltonian.basis_data.interaction_type"}, 2),
-    ("emu_base.pulser_adapter._extract_omega_delta_phi", {"sequence_dict"}, 2),
+    ("emu_base.pulser_adapter.PulserData.__init__", {"self.hamiltonian.basis_data.interaction_type"}, 2),
+    ("emu_base.pulser_adapter._extract_omega_delta_phi", {"noisy_samples"}, 2),
     ("emu_mps.hamiltonian.make_H", {"hamiltonian_type"}, 2),
     ("emu_base.jump_lindblad_operators.get_lindblad_operators", {"noise_type"}, 5),
     ("emu_mps.mps.MPS.make", {"eigenstates"}, 2),
-    ("emu_mps.mps.MPS._from_state_amplitudes", {"eigenstates", "basis"}, 3),
-    ("emu_mps.mpo.MPO._from_operator_repr", {"eigenstates", "basis"}, 3),
-    ("emu_sv.state_vector.StateVector._from_state_amplitudes", {"eigenstates", "basis"}, 2),
+    ("emu_mps.mps.MPS._from_state_amplitudes", {"eigenstates"}, 3),
+    ("emu_mps.mpo.MPO._from_operator_repr", {"eigenstates"}, 3),
+    ("emu_sv.state_vector.StateVector._from_state_amplitudes", {"eigenstates"}, 2),
     ("emu_sv.dense_operator.DenseOperator._from_operator_repr", {"eigenstates"}, 2),
     ("emu_sv.sparse_operator.SparseOperator._from_operator_repr", {"eigenstates"}, 2),
 ]
